@@ -13,7 +13,7 @@ Per generated case (a SEG-Y source -> SGZ -> exported SEG-Y):
     wrapped to record the spec), format code, number of traces, the bytes of the header region that differ from
     the stored header, where segyio looks for trace 0, and per trace: byte offset of the header (= regenerated
     header, parsed from the raw bytes), byte offset of the samples and the grid cell they come from
-  * known finding D30 (sources announcing extended textual headers): classified by the guard ext_headers == 0.
+  * known finding D34 (sources announcing extended textual headers): classified by the guard ext_headers == 0.
 """
 import os, sys, struct
 sys.path.insert(0, os.path.dirname(os.path.abspath(__file__)))
@@ -31,19 +31,21 @@ R = Result('one case = one SEG-Y source (format IEEE/IBM; 3D regular with ascend
            'compression setting x API or CLI, exported and compared trace by trace; non-trivial = distinct (kind, format, dims, '
            'axes, t0, mask, header variant, rate, blockshape, route) with at least 2 traces and 2 samples')
 rng = random.Random(a.seed + 606)
-D30 = 'D30-export-extended-text-headers'
+D34 = 'D34-export-extended-text-headers'
 KEYS = sorted(int(k) for k in _segyio.TraceField.enums() if int(k) > 0)
 WIDTH = {k: (KEYS[i + 1] - k if i + 1 < len(KEYS) else 241 - k) for i, k in enumerate(KEYS)}
 assert all(w in (2, 4) for w in WIDTH.values()) and sum(WIDTH.values()) == 240, WIDTH
 TF = _segyio.TraceField
+# the fields segyio can read back (all but the two unassigned words at 233 and 237)
+READABLE = sorted(int(k) for k in _segyio.segy.Field(bytearray(240), kind='trace'))
 # fields the generators own (geometry, sample description); never randomised
 RESERVED = {int(TF.INLINE_3D), int(TF.CROSSLINE_3D), int(TF.TRACE_SAMPLE_INTERVAL), int(TF.TRACE_SAMPLE_COUNT),
             int(TF.DelayRecordingTime), int(TF.offset),
-            # segyio scales the delay by this field when it derives the sample axis (D31 cases set it explicitly)
+            # segyio scales the delay by this field when it derives the sample axis (D35 cases set it explicitly)
             int(TF.ScalarTraceHeader),
             # bytes 233-240 ("unassigned"): segyio writes them but always reads 0, so no reader can observe them
             233, 237}
-D31 = 'D31-export-delay-scaled-by-trace-scalar'
+D35 = 'D35-export-delay-scaled-by-trace-scalar'
 
 # ---------------------------------------------------------------- segyio.create wrapper: record the spec
 _created = []
@@ -100,7 +102,7 @@ def gen_case(k, quick):
     c['bin'] = r.choice(['plain', 'plain', 'fold256', 'fold4660', 'text', 'many'])
     c['ext'] = 0
     c['vary_delay'] = False
-    c['scalar'] = r.choice([0, 0, 0, 1, -1, 0])   # ScalarTraceHeader (215); other values: the D31 cases
+    c['scalar'] = r.choice([0, 0, 0, 1, -1, 0])   # ScalarTraceHeader (215); other values: the D35 cases
     if c['via'] == 'cli':
         c['hv'] = 'default' if c['hv'] == 'random' else c['hv']   # the CLI has no header_detection option
         if c['bs'] is not None and -1 in c['bs']:
@@ -108,13 +110,17 @@ def gen_case(k, quick):
     return c
 
 
-def irregular_mask(c):
-    r = random.Random(c['mseed'])
+def irregular_mask(c, attempt=0):
+    r = random.Random(c['mseed'] + 7919 * attempt)
     n_il, n_xl = c['n_il'], c['n_xl']
     for _ in range(100):
         m = np.array([[r.random() < 0.7 for _ in range(n_xl)] for _ in range(n_il)])
-        # every line of the grid is hit (so the grid derived by the writer is this grid) and the file is irregular
-        if m.any(axis=1).all() and m.any(axis=0).all() and not m.all() and m.sum() >= 2:
+        # first and last cell populated: the default (heuristic) header detection compares the first and the last trace
+        # only, so a field that happens to agree on those two is stored as a constant (documented limitation, C04)
+        m[0, 0] = m[-1, -1] = True
+        # every line of the grid is hit (so the grid derived by the writer is this grid); the inlines do not all have
+        # the same number of traces (otherwise segyio itself reads the source as a regular file)
+        if m.any(axis=1).all() and m.any(axis=0).all() and not m.all() and len(set(m.sum(axis=1))) > 1:
             return m
     m = np.ones((n_il, n_xl), bool)
     m[0, 1] = False
@@ -136,7 +142,7 @@ def hdr_fun(c, ntr):
         tab = {k: [r.randint(*lim(k))] * ntr for k in fields}
     elif hv == 'extreme':
         fields = r.sample(free, 6)
-        tab = {k: [lim(k)[t % 2] for t in range(ntr)] for k in fields}
+        tab = {k: [lim(k)[t % 2] if t < ntr - 1 else lim(k)[1] for t in range(ntr)] for k in fields}
         tab[fields[0]] = [lim(fields[0])[1] - t for t in range(ntr)]
     else:   # duplicate: several fields carry the same varying values
         fields = r.sample([k for k in free if WIDTH[k] == 4], 4)
@@ -180,11 +186,26 @@ def build_source(c, d):
     else:
         il = c['il0'] + np.arange(c['n_il']) * c['il_step']
         xl = c['xl0'] + np.arange(c['n_xl']) * c['xl_step']
-        present = irregular_mask(c) if c['kind'] == 'irregular' else None
-        ntr = int(present.sum()) if present is not None else ntr
-        hf = with_extras(hdr_fun(c, ntr))
-        idx = mk_segy(sgy, data, il, xl, dt_us=c['dt_us'], t0=c['t0'], fmt=c['fmt'], present=present, hdr=hf,
-                      ext_text=c['ext'])
+        for attempt in range(50):
+            present = irregular_mask(c, attempt) if c['kind'] == 'irregular' else None
+            ntr = int(present.sum()) if present is not None else ntr
+            hf = with_extras(hdr_fun(c, ntr))
+            idx = mk_segy(sgy, data, il, xl, dt_us=c['dt_us'], t0=c['t0'], fmt=c['fmt'], present=present, hdr=hf,
+                          ext_text=c['ext'])
+            if present is None:
+                break
+            # the source must be irregular FOR SEGYIO: its geometry inference only counts traces (first inline x number
+            # of inlines), so some masks are read as a regular cube with a wrong crossline axis; those are not
+            # irregular sources in the sense of the property (the "original geometry" would already be wrong)
+            try:
+                with _segyio.open(sgy) as probe:
+                    regular_for_segyio = True
+            except Exception:
+                regular_for_segyio = False
+            if not regular_for_segyio:
+                break
+        else:
+            raise RuntimeError('no irregular mask found')
         cells = [i * c['n_xl'] + x for i, x in idx]
     # binary / textual header content
     b = c['bin']
@@ -206,12 +227,13 @@ def build_source(c, d):
 
 def convert_and_export(c, sgy, d):
     sgz = os.path.join(d, f"z{c['k']}.sgz")
+    bs = tuple(c['bs']) if c['bs'] is not None else None      # a replayed case comes back from JSON with a list
     out = os.path.join(d, f"o{c['k']}.sgy")
     if c['via'] == 'cli':
         run = CliRunner()
         args = ['sgy2sgz', sgy, sgz, '--bits-per-voxel', str(int(c['bpv'])) if c['bpv'] >= 1 else str(-int(round(1 / c['bpv'])))]
-        if c['bs'] is not None:
-            args += ['--blockshape'] + [str(v) for v in c['bs']]
+        if bs is not None:
+            args += ['--blockshape'] + [str(v) for v in bs]
         r1 = quiet(run.invoke, sz_cli, args)
         if r1.exit_code != 0:
             raise RuntimeError(f'cli sgy2sgz failed: {r1.exception!r}')
@@ -221,7 +243,7 @@ def convert_and_export(c, sgy, d):
             raise RuntimeError(f'cli sgz2sgy failed: {r2.exception!r}')
     else:
         hd = 'exhaustive' if c['hv'] in ('random', 'extreme') or c['vary_delay'] else 'heuristic'
-        write_segy_sgz(sgy, sgz, bpv=c['bpv'], blockshape=c['bs'], header_detection=hd)
+        write_segy_sgz(sgy, sgz, bpv=c['bpv'], blockshape=bs, header_detection=hd)
         del _created[:]
         with SgzConverter(sgz) as conv:
             quiet(conv.convert_to_segy, out)
@@ -293,9 +315,9 @@ def run_case(c, d, terms, pending):
                         bad('oracle', f'sample axis differs: {list(f.samples)[:3]} vs {list(g.samples)[:3]}')
                     else:
                         bad('oracle', f'source delay {delay0} with ScalarTraceHeader {c.get("scalar")} (first sample {first_src}): exported '
-                                      f'delay {int(f.header[0][TF.DelayRecordingTime])}, sample axis {list(f.samples)[:2]} vs {list(g.samples)[:2]}', key=D31)
-                        if D31 not in R.known:
-                            R.known.append(D31)
+                                      f'delay {int(f.header[0][TF.DelayRecordingTime])}, sample axis {list(f.samples)[:2]} vs {list(g.samples)[:2]}', key=D35)
+                        if D35 not in R.known:
+                            R.known.append(D35)
                 if int(f.format) != int(g.format) or int(f.format) != c['fmt']:
                     bad('oracle', f'format exported {int(f.format)} source {int(g.format)}')
                 if structured:
@@ -340,20 +362,20 @@ def run_case(c, d, terms, pending):
         except Exception as e:
             bad('oracle', f'exported file cannot be opened / compared with segyio: {e!r}')
     else:
-        # outside the guard: D30.  The export must fail to read back (else the finding no longer reproduces).
+        # outside the guard: D34.  The export must fail to read back (else the finding no longer reproduces).
         try:
             with _segyio.open(out, ignore_geometry=True) as f:
                 t0_ = f.xfd.metrics()['trace0']
                 same = f.tracecount == ntr and all(bits_equal(f.trace.raw[i], dec[i]) for i in range(min(ntr, 3)))
             if not same:
                 bad('oracle', f'source announces {ext_announced} extended textual header(s): exported file is read from byte {t0_}, '
-                              f'traces are at 3600', key=D30)
-                if D30 not in R.known:
-                    R.known.append(D30)
+                              f'traces are at 3600', key=D34)
+                if D34 not in R.known:
+                    R.known.append(D34)
         except Exception as e:
-            bad('oracle', f'source announces {ext_announced} extended textual header(s): exported file unreadable ({e!r})', key=D30)
-            if D30 not in R.known:
-                R.known.append(D30)
+            bad('oracle', f'source announces {ext_announced} extended textual header(s): exported file unreadable ({e!r})', key=D34)
+            if D34 not in R.known:
+                R.known.append(D34)
 
     # ------------------------------------------------ CORRESPONDENCE (deferred: one batch of Coq evaluations)
     if not a.no_model:
@@ -369,9 +391,9 @@ def run_case(c, d, terms, pending):
         with SgzConverter(sgz) as conv:
             regen = [dict((int(k), int(v)) for k, v in conv.regenerate_trace_header(i).items()) for i in range(ntr)]
             first = int(conv.zslices[0])
-            nkeys = len(regen[0]) if regen else len(KEYS)
+            keys = sorted(regen[0]) if regen else list(READABLE)
         impl = {'created': cre, 'exp': exp, 'stored': stored, 'regen': regen, 'dec': dec, 'cells': cells, 'ns': ns, 'ntr': ntr,
-                'fmt': c['fmt'], 'first': first, 'nkeys': nkeys, 'out': out, 'vol': vol, 'is3d': is3d, 'n_xl': c.get('n_xl', 1),
+                'fmt': c['fmt'], 'first': first, 'keys': keys, 'out': out, 'vol': vol, 'is3d': is3d, 'n_xl': c.get('n_xl', 1),
                 'vary': c['vary_delay']}
         try:
             with _segyio.open(out, ignore_geometry=True) as f:
@@ -422,8 +444,9 @@ def check_corr(inp, impl, val):
             bad('segyio cannot open the exported file although the model says trace 0 is looked for at 3600')
     elif real_t0 != trace0:
         bad(f'trace 0 offset on re-opening: model {trace0}, segyio {real_t0}')
-    if impl['nkeys'] != len(KEYS):
-        bad(f"regenerated header has {impl['nkeys']} keys, segyio knows {len(KEYS)}: the header write is not a replacement")
+    if impl['keys'] != READABLE:
+        bad(f"regenerated header has keys {sorted(set(impl['keys']) ^ set(READABLE))} more/less than segyio can read: the header "
+            f"write is not a replacement of the whole header")
     nbad = 0
     for i, (hoff, soff, cell) in enumerate(plan[:n_real if n_real > 0 else 0]):
         if nbad >= 3:
@@ -433,6 +456,9 @@ def check_corr(inp, impl, val):
             nbad += 1
             continue
         got = parse_header(exp[hoff:hoff + 240])
+        if got.pop(233) != 0 or got.pop(237) != 0:
+            bad(f'trace {i}: bytes 233-240 of the exported header are not zero')
+            nbad += 1
         want = impl['regen'][i] if i < len(impl['regen']) else None
         if want is None or got != want:
             dd = {k: (got[k], want.get(k)) for k in got if want is None or got[k] != want.get(k)} if want else 'missing'
@@ -477,7 +503,7 @@ def main():
         else:
             n = 75 if quick else 420
             cases = [gen_case(k, quick) for k in range(n)]
-            # the defective region (D30) and the delay regeneration (correspondence only) are always exercised
+            # the defective region (D34) and the delay regeneration (correspondence only) are always exercised
             k0 = len(cases)
             for j, kind in enumerate(['regular', 'irregular']):
                 c = gen_case(1000 + j, True)
